@@ -985,12 +985,39 @@ def _fuse_blocks_via_concat(
 
     # then we actually have to combine the groups of subsectors
 
+    def _get_zeros(new_sector, new_subkey):
+        # subsector is missing - need to create zeros
+        shape_before = (
+            old_indices[ax].size_of(new_sector[new_axes[ax]])
+            for ax in axes_before
+        )
+        shape_new = (
+            (
+                # singlet groups keep their index, which has no subinfo
+                new_indices[position + gg].size_of(new_sector[position + gg])
+                if gg in group_singlets
+                else new_indices[position + gg].subinfo.extents[
+                    new_sector[position + gg]
+                ][ss]
+            )
+            for gg, ss in enumerate(new_subkey)
+        )
+        shape_after = (
+            old_indices[ax].size_of(new_sector[new_axes[ax]])
+            for ax in axes_after
+        )
+        new_shape = (*shape_before, *shape_new, *shape_after)
+        return _zeros(new_shape, **zeros_kwargs)
+
     def _recurse_concat(new_sector, g=0, subkey=()):
         if g in group_singlets:
             # singlet group, no need to concatenate
             new_subkey = subkey + ((new_sector[position + g],),)
             if g == num_groups - 1:
-                return new_blocks[new_sector][new_subkey]
+                try:
+                    return new_blocks[new_sector][new_subkey]
+                except KeyError:
+                    return _get_zeros(new_sector, new_subkey)
             else:
                 return _recurse_concat(new_sector, g + 1, new_subkey)
 
@@ -1007,27 +1034,7 @@ def _fuse_blocks_via_concat(
                 try:
                     array = new_blocks[new_sector][new_subkey]
                 except KeyError:
-                    # subsector is missing - need to create zeros
-                    shape_before = (
-                        old_indices[ax].size_of(new_sector[new_axes[ax]])
-                        for ax in axes_before
-                    )
-                    shape_new = (
-                        new_indices[position + gg].subinfo.extents[
-                            new_sector[position + gg]
-                        ][ss]
-                        for gg, ss in enumerate(new_subkey)
-                    )
-                    shape_after = (
-                        old_indices[ax].size_of(new_sector[new_axes[ax]])
-                        for ax in axes_after
-                    )
-                    new_shape = (
-                        *shape_before,
-                        *shape_new,
-                        *shape_after,
-                    )
-                    array = _zeros(new_shape, **zeros_kwargs)
+                    array = _get_zeros(new_sector, new_subkey)
                 arrays.append(array)
         else:
             # recurse to next group
